@@ -483,6 +483,35 @@ fn c10_check(case: &Case, ctx: &mut Ctx) -> Result<(), String> {
     Ok(())
 }
 
+/// Directed span boundaries: cut an occurrence of a pattern (the last one of
+/// the list half of the time) with the right or the left end of the span, so
+/// that the *original* haystack has an occurrence that starts inside and ends
+/// outside (or vice versa). Plants the pattern when it does not occur.
+pub fn directed_cut(case: &mut Case, mode: u8, pa: u16, pb: u16) {
+    let n = case.haystack.len();
+    let cut = (mode >> 1) & 3;
+    if (cut == 1 || cut == 2) && !case.patterns.is_empty() && case.span.0 <= case.span.1 {
+        let np = case.patterns.len();
+        let pi = if mode & 8 != 0 { np - 1 } else { (pa as usize * np) >> 16 };
+        let p = case.patterns[pi].clone();
+        if p.len() >= 2 && n >= p.len() {
+            let pos = match case.haystack.windows(p.len()).position(|w| w == &p[..]) {
+                Some(pos) => pos,
+                None => {
+                    let at = (pb as usize * (n - p.len() + 1)) >> 16;
+                    case.haystack[at..at + p.len()].copy_from_slice(&p);
+                    at
+                }
+            };
+            let sel = (mode >> 4) as usize; // 0..16
+            let k = if sel < 6 { p.len() - 1 - (sel % 3).min(p.len() - 2) } else { 1 + ((sel - 6) * (p.len() - 1)) / 10 };
+            let k = k.clamp(1, p.len() - 1);
+            let (s, e) = case.span;
+            case.span = if cut == 1 { (s.min(pos), pos + k) } else { (pos + k, e.max(pos + p.len())) };
+        }
+    }
+}
+
 fn c10_strategy(_tier: Tier) -> BoxedStrategy<Case> {
     let base = |size_class: u8| {
         gen::search_case(SearchOpts {
@@ -505,31 +534,7 @@ fn c10_strategy(_tier: Tier) -> BoxedStrategy<Case> {
                 outside.push(b'a');
             }
             let n = case.haystack.len();
-            // directed span boundaries: cut an occurrence of a pattern (the
-            // last one of the list half of the time) with the right or the
-            // left end of the span, so that the *original* haystack has an
-            // occurrence that starts inside and ends outside (or vice versa)
-            let cut = (mode >> 1) & 3;
-            if (cut == 1 || cut == 2) && !case.patterns.is_empty() && case.span.0 <= case.span.1 {
-                let np = case.patterns.len();
-                let pi = if mode & 8 != 0 { np - 1 } else { (pa as usize * np) >> 16 };
-                let p = case.patterns[pi].clone();
-                if p.len() >= 2 && n >= p.len() {
-                    let pos = match case.haystack.windows(p.len()).position(|w| w == &p[..]) {
-                        Some(pos) => pos,
-                        None => {
-                            let at = (pb as usize * (n - p.len() + 1)) >> 16;
-                            case.haystack[at..at + p.len()].copy_from_slice(&p);
-                            at
-                        }
-                    };
-                    let sel = (mode >> 4) as usize; // 0..16
-                    let k = if sel < 6 { p.len() - 1 - (sel % 3).min(p.len() - 2) } else { 1 + ((sel - 6) * (p.len() - 1)) / 10 };
-                    let k = k.clamp(1, p.len() - 1);
-                    let (s, e) = case.span;
-                    case.span = if cut == 1 { (s.min(pos), pos + k) } else { (pos + k, e.max(pos + p.len())) };
-                }
-            }
+            directed_cut(&mut case, mode, pa, pb);
             let mut o: Vec<u8> = (0..n).map(|i| outside[i % outside.len()]).collect();
             let (s, e) = case.span;
             if s <= e && mode & 1 == 0 {
